@@ -135,6 +135,12 @@ class Engine(ExprMixin, CallMixin, StmtMixin, Core):
         for p, so in t.params.items():
             if p not in st.env:
                 # closure variables of nested targets, or block inputs
+                if isinstance(so, tuple) and so and so[0] == "alias":
+                    # a block input that is an alias of a container's bound method (a = r.append before the block)
+                    import ast as _ast
+                    from .sorts import FUNC as _FUNC
+                    st.env[p] = V(_FUNC, ("alias", _ast.parse(so[1], mode="eval").body))
+                    continue
                 if isinstance(so, Obj):
                     ref = V(so, p)
                     st.env[p] = ref
